@@ -45,20 +45,6 @@ def c15_mixed_session():
     return res
 
 
-def c16_huge_length():
-    fresh()
-    objectio.set_io_objects()
-    try:
-        objectio.read_pil("length a = 99999999999999999999999\n")
-    except OverflowError as e:
-        fresh()
-        return f"read_pil('length a = 99999999999999999999999') raised OverflowError: {e}"
-    except Exception:
-        pass
-    fresh()
-    return None
-
-
 def c15_failing_ctor_canon_held():
     fresh()
     a = bc.DomainS("a", 5)
@@ -86,6 +72,6 @@ def c15_failing_ctor_canon_held():
     return res
 
 
-W = {"c15_failing_ctor_canon_held": c15_failing_ctor_canon_held, "c13_missing_name": c13_missing_name, "c15_mixed_session": c15_mixed_session, "c16_huge_length": c16_huge_length}
+W = {"c15_failing_ctor_canon_held": c15_failing_ctor_canon_held, "c13_missing_name": c13_missing_name, "c15_mixed_session": c15_mixed_session}
 req = json.load(sys.stdin)
 json.dump({n: W[n]() for n in req["names"]}, sys.stdout)
